@@ -262,7 +262,8 @@ func c10Apply(root any, idx int, mut string, r *wk.Rand) (string, bool) {
 		mine, _ := n.val.(map[string]any)
 		for _, m := range nodes {
 			if mm, is := m.val.(map[string]any); is {
-				if tid, has := mm["type_id"]; has && tid != mine["type_id"] {
+				// (compared as text: after an earlier mutation a type_id may be a list or a map, which == panics on)
+				if tid, has := mm["type_id"]; has && fmt.Sprintf("%T:%v", tid, tid) != fmt.Sprintf("%T:%v", mine["type_id"], mine["type_id"]) {
 					cands = append(cands, m.val)
 				}
 			}
